@@ -95,7 +95,7 @@ class _Tty(io.StringIO):
 
 
 def run_scenario(prog, schema_state, instances, output="plain", explicit=False, base_uri=None, stdin_state=None, repeat_first=False, names=None, decoys=None, tty=False,
-                 _err=None):
+                 _err=None, error_format=None):
     """-> dict(exit, opened, log, out, err)"""
     ev = Ev(prog, fuel=120000, real_errors=True)
     Obj.ev = ev
@@ -129,7 +129,7 @@ def run_scenario(prog, schema_state, instances, output="plain", explicit=False, 
     else:
         stdin = SIO(json.dumps(value_of(stdin_state)))
     arguments = {"validator": given if explicit else None, "schema": "schema.json", "instances": paths if instances is not None else None,
-                 "error_format": "<{error.message}>\u2713\u00e9" if output == "plain" else None, "output": output, "base_uri": base_uri}
+                 "error_format": (error_format if error_format is not None else "<{error.message}>\u2713\u00e9") if output == "plain" else None, "output": output, "base_uri": base_uri}
     run = prog.func("cli.run")
     # sys.exc_info(): track the exception being handled
     orig = ev.handler_matches
@@ -215,21 +215,27 @@ def cli_eval(prog):
         # standard input attached to a terminal is read like any other
         for sin in ({"errors": 0}, {"errors": 2}):
             scenarios.append((good, None, "plain", False, None, sin, None, None, True))
+        # what an error looks like on the terminal is the format's business; whether the instance was invalid is not: a format that
+        # renders every error as nothing at all (or as very little) changes neither the exit status nor what is validated
+        for fmt in ("", "{error.message:.0}", "\n"):
+            for sts in ([{"errors": 1}], [{"errors": 0}, {"errors": 2}], [{"errors": 0}], [{"errors": 2}, {"errors": 0}]):
+                scenarios.append((good, sts, "plain", False, None, None, None, None, False, fmt))
         n_run = 0
         for sc in scenarios:
             (sst, insts, output, explicit, base, sin), names, decoys = sc[:6], (sc[6] if len(sc) > 6 else None), (sc[7] if len(sc) > 7 else None)
             tty = sc[8] if len(sc) > 8 else False
+            fmt = sc[9] if len(sc) > 9 else None
             rep = bool(insts) and insts[-1] == "REPEAT"
             if rep:
                 insts = insts[:-1]
-            res = run_scenario(prog, sst, insts, output, explicit, base, sin, repeat_first=rep, names=names, decoys=decoys, tty=tty)
+            res = run_scenario(prog, sst, insts, output, explicit, base, sin, repeat_first=rep, names=names, decoys=decoys, tty=tty, error_format=fmt)
             if rep:
                 insts = insts + [insts[0]]
             n_run += 1
             label = "schema %s, instances %s, %s%s%s%s" % (
                 sst if isinstance(sst, str) else ("invalid" if sst.get("invalid") else "valid"),
                 "stdin:%s" % (sin if isinstance(sin, str) else sin["errors"]) if insts is None else [s if isinstance(s, str) else s["errors"] for s in insts],
-                output, ", explicit class" if explicit else "", ", base uri" if base else "", "")
+                output, ", explicit class" if explicit else "", ", base uri" if base else "", ", error format %r" % fmt if fmt is not None else "")
             schema_ok = isinstance(sst, dict) and not sst.get("invalid")
             states = ([sin] if insts is None else insts) if schema_ok else []
             want_zero = schema_ok and all(loadable(s) and n_errors(s) == 0 for s in states)
@@ -271,7 +277,12 @@ def cli_eval(prog):
             n_unparsable = sum(1 for s in states if s in (NOTJSON, NOTUTF8, CTRL))
             n_valid = sum(1 for s in states if loadable(s) and n_errors(s) == 0)
             err, so = res["err"], res["out"]
-            if output == "plain":
+            if output == "plain" and fmt is not None:
+                if so != "":
+                    out["streams"] = out["streams"] or "%s: plain mode writes %r to stdout" % (label, so[:40])
+                if fmt == "\n" and err != "\n" * n_err:
+                    out["reports"] = out["reports"] or "%s: %r written to stderr, expected the format once per error" % (label, err[:40])
+            elif output == "plain":
                 got_err = err.count("<E")
                 if err.count("\u2713\u00e9") != n_err and got_err == n_err:
                     out["reports"] = out["reports"] or "%s: the error format's own text (non-ASCII characters) does not come out as given" % label
